@@ -36,6 +36,10 @@ CHANNELS = {
     "namespace_data": ("NAMESPACE_DATA.leak = 'L'", "tostring(NAMESPACE_DATA.leak)"),
     "module_state": ("require('Module:state').set('L')", "tostring(require('Module:state').get())"),
     "os_table": ("os.leak = 'L'", "tostring(os.leak)"),
+    # the sandbox's own helpers are visible to page code: what they hand out must not let a page break the next one
+    "shared_env_metatable": ("local e = _lua_reset_env and _lua_reset_env() if type(e) == 'table' then pcall(setmetatable, e, {__metatable = false, __index = function() return 'L' end}) end",
+                             "tostring(rawget(_G, 'leak_never_set'))"),
+    "shared_env_field": ("local e = _lua_reset_env and _lua_reset_env() if type(e) == 'table' then e.leak_e = 'L' end", "tostring(rawget(_G, 'leak_e'))"),
 }
 
 
